@@ -790,6 +790,35 @@ class CutoffPowerLawEnergyFluxProfile(
 
         return values
 
+    def get_integral(
+            self,
+            E1,
+            E2,
+            unit=None,
+    ):
+        """Computes the integral value of this cut-off power-law energy flux
+        profile in the range ``[E1, E2]``. The closed form of the plain power
+        law does not apply, hence the generic numeric integration of the
+        :class:`EnergyFluxProfile` class is used.
+
+        Parameters
+        ----------
+        E1 : float | 1d numpy ndarray of float
+            The lower energy bound of the integration.
+        E2 : float | 1d numpy ndarray of float
+            The upper energy bound of the integration.
+        unit : instance of astropy.units.UnitBase | None
+            The unit of the given energies.
+            If set to ``None``, the set energy unit of this EnergyFluxProfile
+            instance is assumed.
+
+        Returns
+        -------
+        integral : 1d ndarray of float
+            The integral values of the given integral ranges.
+        """
+        return EnergyFluxProfile.get_integral(self, E1=E1, E2=E2, unit=unit)
+
 
 class LogParabolaPowerLawEnergyFluxProfile(
         PowerLawEnergyFluxProfile,
@@ -905,6 +934,35 @@ class LogParabolaPowerLawEnergyFluxProfile(
         )
 
         return values
+
+    def get_integral(
+            self,
+            E1,
+            E2,
+            unit=None,
+    ):
+        """Computes the integral value of this log-parabola power-law energy flux
+        profile in the range ``[E1, E2]``. The closed form of the plain power
+        law does not apply, hence the generic numeric integration of the
+        :class:`EnergyFluxProfile` class is used.
+
+        Parameters
+        ----------
+        E1 : float | 1d numpy ndarray of float
+            The lower energy bound of the integration.
+        E2 : float | 1d numpy ndarray of float
+            The upper energy bound of the integration.
+        unit : instance of astropy.units.UnitBase | None
+            The unit of the given energies.
+            If set to ``None``, the set energy unit of this EnergyFluxProfile
+            instance is assumed.
+
+        Returns
+        -------
+        integral : 1d ndarray of float
+            The integral values of the given integral ranges.
+        """
+        return EnergyFluxProfile.get_integral(self, E1=E1, E2=E2, unit=unit)
 
 
 class PhotosplineEnergyFluxProfile(
